@@ -126,8 +126,29 @@ fn market(i: usize, t: i64, kind: DataKind) -> MarketEvent<InstrumentIndex, Data
     }
 }
 
+/// persist / restore of everything the property covers: every AssetState, every instrument's
+/// market data and Orders go through a serde_json round trip and the engine continues on the
+/// restored values (the whole EngineState cannot be a JSON document: its maps are keyed by
+/// structs). Returns whether every restored component equals its original.
+fn persist_state(state: &mut Engine) -> bool {
+    let mut same = true;
+    for a in state.assets.0.values_mut() {
+        same &= roundtrip(a);
+    }
+    for inst in state.instruments.0.values_mut() {
+        same &= roundtrip(&mut inst.data);
+        same &= roundtrip(&mut inst.orders);
+    }
+    same
+}
+
 fn apply_event(state: &mut Engine, x: &EvJ) {
     match x {
+        EvJ::Ord {
+            op: OpJ::Persist {},
+        } => {
+            persist_state(state);
+        }
         EvJ::Bal { b } => {
             state.update_from_account(&AccountEvent {
                 exchange: ExchangeIndex(0),
@@ -239,6 +260,9 @@ fn coq_ev(x: &EvJ) -> String {
             list(&bals.iter().map(coq_bal).collect::<Vec<_>>()),
             coq_isnaps(insts)
         ),
+        EvJ::Ord {
+            op: OpJ::Persist {},
+        } => unreachable!("persist steps are printed by the run loop"),
         EvJ::Ord { op } => format!("AOrd ({})", coq_op(op)),
         EvJ::Trade { i, t, p } => {
             let (_, d) = trade_price(p);
@@ -418,17 +442,27 @@ fn run_input9(input: &Input9) -> Ran {
         let mut obs = vec![];
         let mut tags = vec![];
         let mut nontrivial = false;
+        let mut steps = vec![];
         for x in &input.xs {
             tags.extend(ev_tags(&state, x));
             let before = state.clone();
-            apply_event(&mut state, x);
+            if let EvJ::Ord {
+                op: OpJ::Persist {},
+            } = x
+            {
+                let same = persist_state(&mut state);
+                steps.push(format!("XPersist {}", b(same)));
+            } else {
+                apply_event(&mut state, x);
+                steps.push(format!("XEv ({})", coq_ev(x)));
+            }
             nontrivial |= before.assets != state.assets || before.instruments != state.instruments;
             obs.push(format!("({})", coq_obs(&state)));
         }
         Ran {
             coq: format!(
                 "(C9 {} {})",
-                list(&input.xs.iter().map(coq_ev).collect::<Vec<_>>()),
+                list(&steps),
                 list(&obs)
             ),
             nontrivial,
@@ -554,6 +588,25 @@ fn flavours(k: Kind) -> [Kind; 2] {
         Kind::OrdOpen | Kind::AcctOrd => [Kind::OrdOpen, Kind::AcctOrd],
         other => [other, other],
     }
+}
+
+fn persist_ev() -> EvJ {
+    EvJ::Ord {
+        op: OpJ::Persist {},
+    }
+}
+/// the input with a persist / restore inserted after its k-th event, for every k
+fn with_persist_after_every_prefix(input: &Input9) -> Vec<Input9> {
+    (1..=input.xs.len())
+        .map(|k| {
+            let mut xs = input.xs.clone();
+            xs.insert(k, persist_ev());
+            Input9 {
+                ninst: input.ninst,
+                xs,
+            }
+        })
+        .collect()
 }
 
 fn gen_table() -> Vec<Input9> {
@@ -755,6 +808,9 @@ fn gen_episode(r: &mut Rng, max_len: u64, adversarial: bool) -> Input9 {
                 clock
             }
         };
+        if r.chance(1, 8) {
+            xs.push(persist_ev());
+        }
         let x = match r.below(16) {
             0 => rec_open(i, c),
             1..=4 => rec_cancel(i, c),
@@ -900,6 +956,9 @@ fn gen_adversarial(r: &mut Rng, max_len: u64) -> Input9 {
             _ => r.range(1, 6),
         };
         let item = r.below(ninst as u64) as usize;
+        if r.chance(1, 8) {
+            xs.push(persist_ev());
+        }
         let x = match r.below(12) {
             0 => EvJ::Trade {
                 i: item,
@@ -978,9 +1037,26 @@ fn main() {
         "gen" => {
             let thorough = args.tier == "thorough";
             let mut r = Rng::new(args.seed);
-            for input in gen_table().into_iter().chain(gen_cancel_table()) {
-                for scale in TABLE_SCALES {
-                    emit9(&mut em, "table", &rescaled(&input, scale));
+            for (n, input) in gen_table().into_iter().chain(gen_cancel_table()).enumerate() {
+                for (k, scale) in TABLE_SCALES.into_iter().enumerate() {
+                    // quick: two cases in three skip the from-the-epoch scale (the boundary
+                    // scale is a nanosecond apart as well)
+                    if thorough || k != 0 || n % 3 == 0 {
+                        emit9(&mut em, "table", &rescaled(&input, scale));
+                    }
+                }
+            }
+            // persist / restore after every prefix of the (short) table cases, timestamps a
+            // nanosecond apart straddling a millisecond boundary; thorough: also from the epoch
+            for (n, input) in gen_table().into_iter().enumerate() {
+                if !thorough && n % 2 == 1 {
+                    continue;
+                }
+                for with in with_persist_after_every_prefix(&input) {
+                    emit9(&mut em, "table", &rescaled(&with, TABLE_SCALES[1]));
+                    if thorough {
+                        emit9(&mut em, "table", &rescaled(&with, TABLE_SCALES[0]));
+                    }
                 }
             }
             let (n_epi, epi_len) = if thorough { (2500, 30) } else { (140, 12) };
@@ -1008,7 +1084,11 @@ fn main() {
                     let set = gen_set(&mut rr, n, ninst);
                     let scale = time_palette(&mut rr);
                     for p in permutations(set.len()) {
-                        let xs: Vec<EvJ> = p.iter().map(|&i| set[i].clone()).collect();
+                        let mut xs: Vec<EvJ> = p.iter().map(|&i| set[i].clone()).collect();
+                        if rr.chance(1, 3) {
+                            let at = 1 + rr.below(xs.len() as u64) as usize;
+                            xs.insert(at, persist_ev());
+                        }
                         emit9(&mut em, "random", &rescaled(&Input9 { ninst, xs }, scale));
                     }
                 }
